@@ -977,8 +977,26 @@ impl<'a, 'tcx> BodyCx<'a, 'tcx> {
                 o.push(("pat".into(), self.pat(x)));
                 o.push(("guard".into(), self.expr(g)));
             }
-            P::Range(..) => {
+            P::Range(lo, hi, end) => {
                 o.push(("k".into(), s("RangePat")));
+                let bound = |pe: Option<&hir::PatExpr<'tcx>>| -> J {
+                    match pe {
+                        None => J::Null,
+                        Some(pe) => match pe.kind {
+                            hir::PatExprKind::Lit { lit, negated } => J::Obj(self.lit(&lit, negated)),
+                            hir::PatExprKind::Path(ref q) => {
+                                let res = self.tr.qpath_res(q, pe.hir_id);
+                                match res {
+                                    Res::Def(DefKind::Const { .. }, did) | Res::Def(DefKind::AssocConst { .. }, did) => self.d.const_value(did),
+                                    _ => J::Null,
+                                }
+                            }
+                        },
+                    }
+                };
+                o.push(("lo".into(), bound(lo)));
+                o.push(("hi".into(), bound(hi)));
+                o.push(("inclusive".into(), J::Bool(matches!(end, hir::RangeEnd::Included))));
             }
             P::Slice(a, m, b) => {
                 o.push(("k".into(), s("SlicePat")));
@@ -988,6 +1006,8 @@ impl<'a, 'tcx> BodyCx<'a, 'tcx> {
                 }
                 all.extend(b.iter().map(|x| self.pat(x)));
                 o.push(("pats".into(), J::Arr(all)));
+                o.push(("min".into(), J::Int((a.len() + b.len()) as i128)));
+                o.push(("rest".into(), J::Bool(m.is_some())));
             }
             _ => {
                 o.push(("k".into(), s("OtherPat")));
